@@ -66,7 +66,7 @@ def build_report(ctx, prop, lang, item, out, c07=False):
     if out.build == 'ok':
         return True
     if out.build == 'emitted-fail':
-        if c07 or prop in ('C01', 'C02', 'C03'):
+        if c07 or prop in ('C01', 'C02', 'C03', 'C04', 'C05', 'C06'):
             triage_wire(ctx, prop, lang, item, 'emitted-does-not-build', first_error(out.log), {'log': out.log[:3000]})
         else:
             ctx.counters['skipped-emitted-does-not-build:' + lang] += 1
@@ -448,7 +448,21 @@ def c05(ctx):
         for it in have:
             cases, meta = pipeline.decode_cases(it, suffixes=(('n', b''),), second_message=False)
             um = unmapped_cases(it)
-            out = B.run(it, list(range(len(it.msgs))), cases + [(cid, b) for cid, b, _ in um])
+            # reuse cases: decode message i, then message j (another alternative) INTO THE SAME OBJECT; then an unmapped key into a used object
+            reuse = []
+            rmeta = {}
+            types = [tuple(root_types(refmodel.canon(it.proto, it.proto.root.fields, it.ref[i][2]))) for i in range(len(it.msgs))]
+            for i in range(len(it.msgs)):
+                for j in range(len(it.msgs)):
+                    if types[i] != types[j] and len(reuse) < 4:
+                        cid = 'r%d_%d' % (i, j)
+                        reuse.append((cid, it.ref[i][0], it.ref[j][0]))
+                        rmeta[cid] = j
+            um_reuse = [u for u in um if u[2] != ''][:1]      # an empty string key need not overwrite the previous key of a used object
+            for cid, b, key in um_reuse:
+                if it.msgs:
+                    reuse.append(('ru' + cid, it.ref[0][0], b))
+            out = B.run(it, list(range(len(it.msgs))), cases + [(cid, b) for cid, b, _ in um] + reuse)
             if not build_report(ctx, 'C05', lang, it, out):
                 continue
             trace_merge(ctx, lang, out)
@@ -480,6 +494,26 @@ def c05(ctx):
                     where = it.ref[i][1].locate(d)
                     if '<' in where.split('(')[0]:
                         triage_wire(ctx, 'C05', lang, it, 'payload-bytes-wrong', 'encoder output differs inside the match payload: %s' % where, rep)
+            for cid, j in rmeta.items():
+                r = out.dec.get(cid)
+                ctx.evaluated(1, key=(it.tag, lang, 'reuse', cid))
+                rep = {'first_message': msg_json(it.msgs[int(cid[1:].split('_')[0])][1]), 'second_message': msg_json(it.msgs[j][1]), 'got': r}
+                if r is None:
+                    continue
+                if r[0] == 'ERR':
+                    triage_wire(ctx, 'C05', lang, it, 'mapped-key-rejected', 'decoding a second message into a used object fails: %s' % r[1][:200], rep)
+                    continue
+                try:
+                    tg = root_types(wire.decoded_canon(it, r[1]))
+                except Exception:
+                    continue
+                if tuple(tg) != types[j]:
+                    triage_wire(ctx, 'C05', lang, it, 'wrong-packet-selected', 'decoding into an object that already holds a payload keeps/chooses %s, the table says %s for the new key' % (tg, list(types[j])), rep)
+            for cid, b, key in um_reuse:
+                r = out.dec.get('ru' + cid)
+                if r is not None and r[0] != 'ERR' and it.msgs:
+                    ctx.evaluated(1, key=(it.tag, lang, 'reuse-unmapped'))
+                    triage_wire(ctx, 'C05', lang, it, 'unmapped-key-accepted', 'key %r is not in the table but decoding it into a used object returned %s' % (key, r[1][:120]), {'unmapped_key': key, 'got': r})
             for cid, b, key in um:
                 r = out.dec.get(cid)
                 ctx.evaluated(1, key=(it.tag, lang, 'unmapped', str(key)))
@@ -495,6 +529,12 @@ def c05(ctx):
                 'unmapped_keys': [k for _, _, k in unmapped_cases(it)]})
     from . import probes
     probes.run_probes(ctx, 'C05')
+
+
+def root_types(canon):
+    """dynamic payload types of the ROOT packet's own match fields (list members are left out: decoding into a used
+    object may legitimately append to lists)."""
+    return [val[1] for name, val in canon if isinstance(val, tuple) and len(val) == 3 and val[0] == 'm']
 
 
 def dyn_types(canon):
